@@ -28,8 +28,11 @@ import (
 	"fmt"
 	"io"
 	"os"
+	"runtime"
 	"strconv"
 	"strings"
+	"sync/atomic"
+	"time"
 
 	"github.com/ecodeclub/ekit/mapx"
 	"github.com/ecodeclub/ekit/set"
@@ -73,10 +76,29 @@ func floorHalf(a int) int { // Coq's Z division rounds towards minus infinity
 
 const strOff = 100000000
 
+// opStart is the UnixNano time at which the call in progress started (0 = none); the watchdog ends the
+// process when one call runs longer than 5 s or the heap passes 2 GiB (a corrupted tree can make a
+// traversal loop forever).  Completed histories have been flushed; the one in progress prints nothing,
+// so the check sees exactly which history hung (exit code 3) and resumes after it.
+var opStart atomic.Int64
+
+func watchdog() {
+	var ms runtime.MemStats
+	for {
+		time.Sleep(20 * time.Millisecond)
+		t := opStart.Load()
+		runtime.ReadMemStats(&ms)
+		if (t != 0 && time.Now().UnixNano()-t > int64(5*time.Second)) || ms.HeapAlloc > 2<<30 {
+			os.Exit(3)
+		}
+	}
+}
+
 func Main(args []string) {
 	rd := bufio.NewReaderSize(os.Stdin, 1<<20)
 	w := bufio.NewWriterSize(os.Stdout, 1<<20)
 	defer w.Flush()
+	go watchdog()
 	for {
 		line, err := rd.ReadString('\n')
 		if strings.TrimSpace(line) != "" {
@@ -216,7 +238,12 @@ func valOrAbsent(v int, ok bool) string {
 	return "absent"
 }
 
-func run[K any](w *bufio.Writer, cont string, kk keyKind[K], stride int, ops []string) {
+func run[K any](out *bufio.Writer, cont string, kk keyKind[K], stride int, ops []string) {
+	w := &strings.Builder{}
+	defer func() {
+		out.WriteString(w.String())
+		out.Flush()
+	}()
 	calls := 0
 	cmp := func(a, b K) int { calls++; return kk.cmp(a, b) }
 	fk := func(k K) string { return strconv.Itoa(kk.un(k)) }
@@ -254,6 +281,8 @@ func step[K any](b *box[K], kk keyKind[K], op string, k, v int, observe bool, ca
 		}
 	}()
 	*calls = 0
+	opStart.Store(time.Now().UnixNano())
+	defer opStart.Store(0)
 	ret := b.do(op, kk.mk(k), v)
 	n := *calls
 	var sb strings.Builder
@@ -261,16 +290,20 @@ func step[K any](b *box[K], kk keyKind[K], op string, k, v int, observe bool, ca
 	sb.WriteByte(';')
 	sb.WriteString(b.length())
 	if observe {
-		keys, vals, hasVals := b.obs()
-		sb.WriteByte(';')
-		writeInts(&sb, len(keys), func(i int) int { return kk.un(keys[i]) })
-		sb.WriteByte(';')
-		if hasVals {
-			writeInts(&sb, len(vals), func(i int) int { return vals[i] })
-		} else {
-			sb.WriteByte('-')
-		}
 		shape, size, bad := b.dump()
+		if strings.Contains(shape, "!CYCLE") {
+			sb.WriteString(";!CYCLE;!CYCLE") // KeyValues() would not terminate
+		} else {
+			keys, vals, hasVals := b.obs()
+			sb.WriteByte(';')
+			writeInts(&sb, len(keys), func(i int) int { return kk.un(keys[i]) })
+			sb.WriteByte(';')
+			if hasVals {
+				writeInts(&sb, len(vals), func(i int) int { return vals[i] })
+			} else {
+				sb.WriteByte('-')
+			}
+		}
 		sb.WriteByte(';')
 		sb.WriteString(shape)
 		sb.WriteByte(';')
